@@ -117,6 +117,15 @@ def piece_value(piece, row):
     piece = piece.strip()
     if piece in ("Intercept", "1"):
         return 1
+    m = re.match(r"^poly\((\w+), (\d+), raw=True\)(?:\[(\d+)\])?$", piece)
+    if m and m.group(1) in row:
+        # column k of the raw polynomial basis is the (k + 1)-th power (a one-column basis has no index)
+        k = int(m.group(3)) if m.group(3) is not None else 0
+        v = row[m.group(1)]
+        out = v
+        for _ in range(k):
+            out = out * v
+        return out
     m = re.match(r"^(.*)\[([^\[\]]*)\]$", piece)
     if m:
         name, level = m.group(1), m.group(2)
